@@ -256,9 +256,12 @@ def check_C12(res, ctx):
         corrupt.random_damage(res, ctx, rng_for(ctx.seed, "C12r", i), i)
     for i in range(2 if ctx.quick else 30):
         corrupt.check_truncated_hinted(res, ctx, rng_for(ctx.seed, "C12t", i))
+    for i in range(1 if ctx.quick else 12):
+        corrupt.check_structural(res, ctx, rng_for(ctx.seed, "C12s", i))
     return "every single-bit flip of every byte of the data / hint / marker files of small databases (exhaustive unless counted under files_sampled), " \
-           "then Open + dump + Fold; random multi-byte overwrites, truncations, zero runs and 64-byte garbage on larger ones; oracle: every served " \
-           "value was written for that key, no panic; the byte-exact model must predict the same outcome"
+           "then Open + dump + Fold; random multi-byte overwrites, truncations (also exactly at block boundaries), cut-out ranges, zero runs and " \
+           "64-byte garbage on larger ones; structural damage that keeps every chunk checksum valid (record cut between two of its chunks, missing " \
+           "block, swapped chunks); oracle: every served value was written for that key, no panic; the byte-exact model must predict the same outcome"
 
 
 def crash_family(res, ctx, tag, kinds, n_quick, n_thorough, io_mix=(0, 0, 0, 0, 0, 0, 0, 1), cuts_quick="few", cuts_thorough="all", level2=False,
@@ -274,7 +277,7 @@ def crash_family(res, ctx, tag, kinds, n_quick, n_thorough, io_mix=(0, 0, 0, 0, 
         if io == 1:
             nsteps = 6 if ctx.quick else 10    # every recovery of an mmap image reads its 1 GiB zero extension
         if kind == "merge-multi":
-            ops, cfg = crashcheck.merge_workload(rng, io=io)
+            ops, cfg = crashcheck.merge_workload(rng, io=io, double=(i % 2 == 0))
         else:
             ops, cfg = crashcheck.workload(rng, io=io, kind=kind, nsteps=nsteps)
         items.append((i, kind, io, ops, cfg))
